@@ -367,8 +367,14 @@ func newReplayer(ov map[string][]byte) *replayer {
 
 func (r *replayer) cleanup() { os.RemoveAll(r.work) }
 
-func (r *replayer) build(tp targetPkg) error {
-	if _, ok := r.bin[tp.name]; ok {
+func (r *replayer) build(tp targetPkg) error { return r.buildMode(tp, false) }
+
+func (r *replayer) buildMode(tp targetPkg, race bool) error {
+	key := tp.name
+	if race {
+		key += "+race"
+	}
+	if _, ok := r.bin[key]; ok {
 		return nil
 	}
 	t0 := time.Now()
@@ -385,8 +391,11 @@ func (r *replayer) build(tp targetPkg) error {
 	ovj, _ := json.Marshal(map[string]interface{}{"Replace": repl})
 	ovFile := filepath.Join(r.work, "overlay.json")
 	os.WriteFile(ovFile, ovj, 0o644)
-	bin := filepath.Join(r.work, tp.name+".test")
+	bin := filepath.Join(r.work, key+".test")
 	cmd := exec.Command("go", "test", "-c", "-vet=off", "-overlay", ovFile, "-o", bin, ".")
+	if race {
+		cmd = exec.Command("go", "test", "-c", "-race", "-vet=off", "-overlay", ovFile, "-o", bin, ".")
+	}
 	cmd.Dir = tp.dir
 	cmd.Env = goEnv()
 	out, err := cmd.CombinedOutput()
@@ -394,8 +403,46 @@ func (r *replayer) build(tp targetPkg) error {
 	if err != nil {
 		return fmt.Errorf("native build failed: %v\n%s", err, trunc(string(out), 4000))
 	}
-	r.bin[tp.name] = bin
+	r.bin[key] = bin
 	return nil
+}
+
+// runRace executes one vector under the race detector, repeatedly; it reports the detector's first warning.
+func (r *replayer) runRace(tp targetPkg, v replayVector) (string, bool, error) {
+	if err := r.buildMode(tp, true); err != nil {
+		return "", false, err
+	}
+	v.Repeat = 10
+	in := filepath.Join(r.work, fmt.Sprintf("race-%d.json", time.Now().UnixNano()))
+	out := in + ".out"
+	b, _ := json.Marshal([]replayVector{v})
+	os.WriteFile(in, b, 0o644)
+	cmd := exec.Command(r.bin[tp.name+"+race"], "-test.run", "^TestVerifReplay$", "-test.timeout", "120s")
+	cmd.Dir = tp.dir
+	cmd.Env = append(goEnv(), "VERIF_REPLAY_IN="+in, "VERIF_REPLAY_OUT="+out, "GORACE=halt_on_error=0")
+	cout, _ := cmd.CombinedOutput()
+	os.Remove(in)
+	os.Remove(out)
+	txt := string(cout)
+	if i := strings.Index(txt, "WARNING: DATA RACE"); i >= 0 {
+		rep := txt[i:]
+		if j := strings.Index(rep, "=================="); j > 0 {
+			rep = rep[:j]
+		}
+		var keep []string
+		for _, l := range strings.Split(rep, "\n") {
+			l = strings.TrimSpace(l)
+			if l == "" || strings.HasPrefix(l, "runtime.") || strings.HasPrefix(l, "testing.") {
+				continue
+			}
+			keep = append(keep, l)
+			if len(keep) > 14 {
+				break
+			}
+		}
+		return strings.Join(keep, " | "), true, nil
+	}
+	return "race detector reported nothing in 10 runs", false, nil
 }
 
 func (r *replayer) runBatch(tp targetPkg, vecs []replayVector, timeout time.Duration) ([]nativeOutcome, string, error) {
@@ -796,6 +843,16 @@ func runCheck(mode string, args []string) {
 						if len(mismatchNotes) < 12 {
 							mismatchNotes = append(mismatchNotes, fmt.Sprintf("%s inputs=%v: %s", p.vec.Entry, p.vec.Inputs, note))
 						}
+					}
+				} else if p.ce.Kind == "sharedwrite" {
+					why, ok, err := rp.runRace(targets[tn], p.vec)
+					if err != nil {
+						broken = append(broken, "race replay unavailable: "+err.Error())
+					} else if ok {
+						confirmed[p.ce] = "go test -race: " + why
+					} else {
+						spurious++
+						fmt.Printf("  WARNING: unsynchronised shared write not confirmed by the race detector: %s: %s (%s)\n", p.ce.Entry, trunc(p.ce.Msg, 300), why)
 					}
 				} else if why, ok := confirmCE(p.ce, o); ok {
 					confirmed[p.ce] = why
